@@ -39,8 +39,11 @@ use super::source::Fill;
 use super::source::FrameBuf;
 use super::source::Source;
 
-use crossbeam_channel::Receiver;
-use crossbeam_channel::Sender;
+#[cfg(not(flacenc_verif))]
+use crossbeam_channel::{bounded, Receiver, Sender};
+// Instrumented channels (same interface) for the verification harness.
+#[cfg(flacenc_verif)]
+use super::verif_hooks::chan::{bounded, Receiver, Sender};
 
 /// `Arc::into_inner` with unwrapping.
 ///
@@ -124,14 +127,14 @@ impl ParFrameBuf {
             });
             buffers.push(buf);
         }
-        let (refill_sender, refill_receiver) = crossbeam_channel::bounded(replicas + 1);
+        let (refill_sender, refill_receiver) = bounded(replicas + 1);
 
         (0..replicas).for_each(|t| {
             refill_sender.send(t).expect(panic_msg::MPMC_SEND_FAILED);
         });
         Ok(Self {
             buffers,
-            encode_queue: crossbeam_channel::bounded(replicas + 1),
+            encode_queue: bounded(replicas + 1),
             refill_queue: (refill_sender, refill_receiver),
         })
     }
@@ -204,7 +207,7 @@ struct ParContext {
 
 impl ParContext {
     fn new(inner: Context) -> Self {
-        let process_queue = crossbeam_channel::bounded(16);
+        let process_queue = bounded(16);
         let bytes_per_sample = inner.bytes_per_sample();
         let inner = Arc::new(Mutex::new(inner));
 
@@ -312,14 +315,20 @@ fn feed_fixed_block_size<T: Source, C: Fill>(
                 Err(e) => {
                     // workers must be stopped also when feeding is aborted.
                     drop(numbuf);
+                    #[cfg(flacenc_verif)]
+                    super::verif_hooks::sched_point("f_read_err", Some(bufid), None, None);
                     parbuf.request_stop(workers);
                     return Err(e);
                 }
             };
             if read_samples == 0 {
+                #[cfg(flacenc_verif)]
+                super::verif_hooks::sched_point("f_eof", Some(bufid), None, None);
                 break 'feed;
             }
             numbuf.frame_number = Some(frame_count);
+            #[cfg(flacenc_verif)]
+            super::verif_hooks::sched_point("f_filled", Some(bufid), Some(frame_count), None);
         }
         frame_count += 1;
         if parbuf.enqueue_encode(bufid) {
@@ -401,6 +410,8 @@ pub fn encode_with_fixed_block_size<T: Source>(
                     let (frame_number, encode_result) = {
                         let numbuf = &parbuf.lock_buffer(bufid);
                         let frame_number = numbuf.frame_number.expect(panic_msg::FRAMENUM_NOT_SET);
+                        #[cfg(flacenc_verif)]
+                        super::verif_hooks::sched_point("w_lock", Some(bufid), Some(frame_number), None);
                         (
                             frame_number,
                             coding::encode_fixed_size_frame(
@@ -412,6 +423,13 @@ pub fn encode_with_fixed_block_size<T: Source>(
                         )
                     };
                     parbuf.enqueue_refill(bufid);
+                    #[cfg(flacenc_verif)]
+                    super::verif_hooks::sched_point(
+                        if encode_result.is_ok() { "w_push" } else { "w_err" },
+                        Some(bufid),
+                        Some(frame_number),
+                        None,
+                    );
                     match encode_result {
                         Ok(mut frame) => {
                             frame.precompute_bitstream();
@@ -436,8 +454,12 @@ pub fn encode_with_fixed_block_size<T: Source>(
     // All helper threads are stopped and joined before reporting a failure.
     let remaining_md5_blocks = context.request_stop();
     let context = context.finalize();
+    #[cfg(flacenc_verif)]
+    super::verif_hooks::sched_point("m_joined_hasher", None, None, None);
     for h in join_handles {
         h.join().expect(panic_msg::THREAD_JOIN_FAILED);
+        #[cfg(flacenc_verif)]
+        super::verif_hooks::sched_point("m_joined_worker", None, None, None);
     }
     // A frame that could not be encoded precedes the block where reading failed.
     let mut first_encode_error = None;
